@@ -5,6 +5,7 @@ CONSTANTS
   NEvents = 2
   Cap = 1
   Locked = FALSE
+  CloseOnCtxDone = TRUE
 INVARIANTS NoStuckLoop
 
 CHECK_DEADLOCK FALSE
